@@ -241,10 +241,13 @@ func (p *parser) parseFunc() Node {
 
 func (p *parser) addParamsToScope(fd *FuncDefStmt) {
 	for _, param := range fd.Params {
+		if param.Type() == nil {
+			continue // previous error: invalid type
+		}
 		p.validateVarDecl(param, param.token, true /* allowUnderscore */)
 		p.scope.set(param.Name, param)
 	}
-	if fd.VariadicParam != nil {
+	if fd.VariadicParam != nil && fd.VariadicParam.Type() != nil {
 		vParam := fd.VariadicParam
 		p.validateVarDecl(vParam, vParam.token, true /* allowUnderscore */)
 		vParamAsArray := &Var{
@@ -306,6 +309,9 @@ func (p *parser) addEventParamsToScope(e *EventHandlerStmt) {
 	for i, param := range e.Params {
 		if i >= len(expectedParams) {
 			return
+		}
+		if param.Type() == nil {
+			continue // previous error: invalid type
 		}
 		p.validateVarDecl(param, param.token, true /* allowUnderscore */)
 		exptectedType := expectedParams[i].Type()
